@@ -113,6 +113,9 @@ func calls(st *step, seed int) []int {
 type partReader struct {
 	data  []byte
 	calls []int
+	// eofWithData: the last piece is returned together with io.EOF (allowed by io.Reader, done by HTTP
+	// bodies and many wrappers)
+	eofWithData bool
 }
 
 func (r *partReader) Read(p []byte) (int, error) {
@@ -134,6 +137,9 @@ func (r *partReader) Read(p []byte) (int, error) {
 	r.calls[0] -= n
 	if r.calls[0] == 0 {
 		r.calls = r.calls[1:]
+	}
+	if r.eofWithData && len(r.calls) == 0 {
+		return n, io.EOF
 	}
 	return n, nil
 }
@@ -160,7 +166,8 @@ func writeStep(c *websocket.Conn, st *step, data []byte, seed int) error {
 		}
 		cl := calls(st, seed)
 		if st.API == "RF" {
-			if _, err := io.Copy(w, &partReader{data: data, calls: cl}); err != nil {
+			// every other message is copied from a source that ends with (n > 0, io.EOF)
+			if _, err := io.Copy(w, &partReader{data: data, calls: cl, eofWithData: (len(data)+seed)%2 == 0}); err != nil {
 				return fmt.Errorf("io.Copy into the message writer: %v", err)
 			}
 		} else {
